@@ -59,10 +59,12 @@ def _rel(kind):
 
 
 _recipes = None      # class -> [multiset of (rel, partner kind) as sorted list], from the Lean recipe table
+_schema = None       # what the GENERATED schema table (lean/Gen/OoaSchema.lean) demands: class -> (required, single, ids)
+_supers = None       # [(supertype, rel, [subtypes])]
 
 
 def setup(ctx):
-    global _rig, _links, _kinds, _before, _recipes
+    global _rig, _links, _kinds, _before, _recipes, _schema, _supers
     _rig = G.Rig()
     P5._rig = _rig
     m, _ = _rig.fresh()
@@ -74,6 +76,80 @@ def setup(ctx):
         _recipes = {}
         for cls, links, _name in table:
             _recipes.setdefault(cls, []).append(sorted((int(r), str(k)) for r, k in links))
+        classes, supers = sexp.loads(lean.run_driver(['(c06-schema)'])[0])
+        _schema = {}
+        for cls, req, single, ids in classes:
+            _schema[str(cls)] = (set((int(r), str(k)) for r, k in req), set((int(r), str(k)) for r, k in single),
+                                 [[str(a) for a in key] for key in ids])
+        _supers = [(str(s), int(r), [str(x) for x in subs]) for s, r, subs in supers]
+
+
+def _schema_check(m, fail):
+    """the two-sided check against the generated schema table, counted here (not by xtuml.consistency_check):
+    every instance of a created class has EXACTLY one partner on each unconditional single end, AT MOST one on each
+    conditional single end, every supertype instance exactly one subtype instance, identifiers non-null and unique"""
+    if _schema is None:
+        return {}
+    by_kind = {}
+    for ass in m.associations:
+        n = int(ass.rel_id[1:])
+        for link in (ass.source_link, ass.target_link):
+            by_kind.setdefault(link.from_metaclass.kind, []).append((n, link))
+    stats = {}
+    for kind, (req, single, ids) in _schema.items():
+        insts = list(m.select_many(kind))
+        if not insts:
+            continue
+        stats['schema_checked_' + kind] = len(insts)
+        for inst in insts:
+            for n, link in by_kind.get(kind, []):
+                key = (n, link.to_metaclass.kind)
+                cnt = len(list(link.navigate(inst)))
+                if key in req and cnt != 1:
+                    fail('end-count', 'a %s instance has %d partners of class %s across R%d; the schema demands exactly one'
+                         % (kind, cnt, key[1], n))
+                elif key in single and cnt > 1:
+                    fail('end-count', 'a %s instance has %d partners of class %s across R%d; the schema allows at most one'
+                         % (kind, cnt, key[1], n))
+        for key in ids:
+            seen = set()
+            for inst in insts:
+                val = tuple(getattr(inst, a) for a in key)
+                if any(v is None or v == 0 for v in val):
+                    fail('identifier', 'a %s instance has a null value in its identifier %s' % (kind, key))
+                elif val in seen:
+                    fail('identifier', 'two %s instances share the identifier %s' % (kind, key))
+                seen.add(val)
+    for sup, rel, subs in _supers:
+        for inst in m.select_many(sup):
+            cnt = 0
+            for n, link in by_kind.get(sup, []):
+                if n == rel and link.to_metaclass.kind in subs:
+                    cnt += len(list(link.navigate(inst)))
+            if cnt != 1:
+                fail('subtype-count', 'a %s instance has %d subtype instances across R%d' % (sup, cnt, rel))
+    return stats
+
+
+def run_schema(case):
+    """the schema demands computed from the LOADED metamodel (link.conditional / link.many, metaclass.indices) for
+    the classes the Lean table covers: must equal what lean/Gen/OoaSchema.lean + Recipe.required/singleEnds say"""
+    m, _ = _rig.fresh()
+    rows = []
+    for kind in sorted(_schema or {}):
+        req, single = set(), set()
+        mc = m.find_metaclass(kind)
+        for ass in m.associations:
+            n = int(ass.rel_id[1:])
+            for link in (ass.source_link, ass.target_link):
+                if link.from_metaclass.kind == kind:
+                    if not link.many:
+                        single.add((n, link.to_metaclass.kind))
+                        if not link.conditional:
+                            req.add((n, link.to_metaclass.kind))
+        ids = sorted(sorted(v) for v in mc.indices.values())
+        rows.append([kind, sorted([n, k] for n, k in req), sorted([n, k] for n, k in single), ids])
+    return {'obs': rows, 'd_fail': [], 'nontrivial': True, 'key': 'schema', 'stats': {'schema_tie': 1}}
 
 
 def _recipe_misses(m):
@@ -132,6 +208,7 @@ MULTI_HOMES = ['function', 'bridge', 'operation']       # the three homes with t
 def generate(ctx):
     # one body in several homes of ONE model, with different leading blank lines / first-line indentation:
     # every action must carry the positions of its OWN text
+    yield {'schema': True, 'home': 'function', 'prog': [], 'style': 0}
     rng = ctx.rng.fork('multi')
     for i in range(ctx.pick(60, 1500)):
         r = rng.fork(i)
@@ -142,7 +219,7 @@ def generate(ctx):
         yield {'multi': True, 'home': 'function', 'prog': g.program(), 'style': r.randint(0, 2 ** 30),
                'vary': r.random() < 0.5, 'layouts': lay, 'trail': [r.choice(['', ' ', '\n', '\n\n']) for _ in range(3)],
                'via_model': r.random() < 0.6}
-    for c in P5.generate(ctx, n_quick=1900):
+    for c in P5.generate(ctx, n_quick=1500):
         yield c
 
 
@@ -496,6 +573,8 @@ def run_multi(case):
 
 
 def run_impl(case):
+    if case.get('schema'):
+        return run_schema(case)
     if case.get('multi'):
         return run_multi(case)
     rig = _rig
@@ -524,6 +603,7 @@ def run_impl(case):
     if added:
         fail('integrity-added', 'prebuilding added %d multiplicity / uniqueness violation(s) to the ACT_/V_/E_ population'
              % added)
+    stats_schema = _schema_check(m, fail)
     # subtypes
     smts = list(m.select_many('ACT_SMT'))
     vals = list(m.select_many('V_VAL'))
@@ -574,6 +654,17 @@ def run_impl(case):
                          % (i, p[0], p[1], len(starts), _where(ids, starts, prev), _where(ids, starts, exp)))
                 row.append(ids.index(prev) if prev in ids else (Sym('none') if not prev else Sym('other')))
             stmt_obs.append(row)
+        # elif / else clauses are ACT_SMT instances too, held by no statement list: they have no previous statement
+        # and no statement designates them
+        listed = set(p for starts in ty.lists for p in starts)
+        for p, s in by_pos.items():
+            if p not in listed and s.Previous_Statement_ID:
+                fail('clause-chained', 'the elif / else clause at line %d column %d has a Previous_Statement_ID' % p)
+        clause_ids = set(s.Statement_ID for p, s in by_pos.items() if p not in listed)
+        for s in smts:
+            if s.Previous_Statement_ID in clause_ids:
+                fail('clause-chained', 'the statement at line %s designates an elif / else clause as its predecessor'
+                     % s.LineNumber)
     # R816 neighbour references, per invocation
     par_obs = []
     evt_obs = []
@@ -679,6 +770,7 @@ def run_impl(case):
     srt = lambda rows: sorted(rows, key=lambda r: (len(r), dumps(r)))
     misses, hits = _recipe_misses(m)
     stats.update(hits)
+    stats.update(stats_schema)
     var_obs = []
     for v_var in m.select_many('V_VAR'):
         if v_var.Name != 'self':
@@ -704,6 +796,8 @@ def _idx(ids, x):
 
 
 def model_line(case):
+    if case.get('schema'):
+        return '(c06-schema)'
     if case.get('multi'):
         return None
     tree = _rig.parse(text_of(case))
@@ -712,6 +806,12 @@ def model_line(case):
 
 
 def model_obs(case, ans):
+    if case.get('schema'):
+        rows = []
+        for cls, req, single, ids in ans[0]:
+            rows.append([cls, sorted(set((int(r), str(k)) for r, k in req)), sorted(set((int(r), str(k)) for r, k in single)),
+                         sorted(sorted(str(a) for a in key) for key in ids)])
+        return [[c, [list(x) for x in r], [list(x) for x in s], i] for c, r, s, i in sorted(rows)]
     return ans + [[]]       # no instance without a recipe
 
 
